@@ -132,6 +132,10 @@ def handle (G : Grammar) (toks : List String) (st : HM) (x : Abnf.Ext.XState) : 
   | "parseall1" :: r :: cps =>
     let s := nats cps
     (showPRes (wholeOf s (pickWith id (lparseC hmOps G fuel s (.ref r.toNat!) 0 {}).1)), st, x)
+  -- `Rule.create(text)` as far as the text goes: parse with rule `r` of the current grammar (the reader's table), visit
+  | "compile" :: r :: cps =>
+    (Abnf.CT.showCRes (Abnf.CT.createWith (fun src => pickWith id (lparseC hmOps G fuel src (.ref r.toNat!) 0 {}).1) (nats cps)), st, x)
+  | "compile0" :: r :: cps => (Abnf.CT.showCRes (Abnf.CT.create G r.toNat! fuel (nats cps)), st, x)
   -- cache-free engine (the definition the theorems speak about)
   | "lparse0" :: r :: i :: cps => (showRes (lparse G fuel (nats cps) (.ref r.toNat!) i.toNat!) true, st, x)
   | "ends0" :: r :: i :: cps => (showRes (lparse G fuel (nats cps) (.ref r.toNat!) i.toNat!) false, st, x)
